@@ -154,6 +154,20 @@ func Build(s Spec, mons ...vnet.Monitor) *Built {
 				cfg.K.ResetDelayMax = cfg.TPB * 3 / 10
 			}
 		}
+		if r.Intn(5) == 0 && cfg.N >= 2 {
+			// the validator list rotates between heights (same size, other members); nodes outside the
+			// list of a height are ordinary full nodes that get finished blocks from the block relay
+			cfg.Watchers = 1 + r.Intn(2)
+			cfg.K.ObserverSync = true
+			total, size, vseed := cfg.N+cfg.Watchers, cfg.N, s.Seed
+			cfg.ValSchedule = func(idx uint32) []int {
+				rr := rand.New(rand.NewSource(vseed ^ int64(idx)*2654435761))
+				return rr.Perm(total)[:size]
+			}
+			if cfg.K.SlowNode >= 0 || cfg.K.ResetDelayNode >= 0 {
+				cfg.K.SlowNode, cfg.K.SlowExtra, cfg.K.ResetDelayNode, cfg.K.ResetDelayMax = -1, 0, -1, 0
+			}
+		}
 		if (cfg.LatMax > 0 || cfg.K.ResetDelayMax > 0 || cfg.K.SlowExtra > 0) && cfg.BaseHeight == 0 {
 			cfg.BaseHeight = 1 // see DESIGN: zero-duration timers at the very first height
 		}
